@@ -23,13 +23,19 @@
       C18_complete_tables_except / C18_complete_columns_except   (a)/(b) for every file on which the rebuild
             pre-pass does not fire, except when the name is created (again) by a statement of the file
       C18_prepass_identity   the pre-pass does not fire when no statement creates a table named new_*
-      C18_rebuild_complete_partial   the rebuild idiom (4 statements) as a whole file
-      C18_sound_except       soundness when no name is created twice
+      C18_rebuild_group_partial   a confirmed rebuild group (CREATE new_t / copy / DROP t / RENAME) is reported
+            at the position of its first statement with DS103 for every omitted non-virtual column
+      C18_sound_additive     a file none of whose statements removes a table or column name gets no diagnostic
+      C18_sound_temp_table_partial   a table name created once in the analysed list, before any drop of it
+            (create + drop of a temporary table in the file), is never named by a DS102
       C18_complete_refuted_* / C18_sound_refuted   witnesses of the four defects (replayed on the real CLI)
-    MISSING for the full [_except] characterisation (hence the rebuild theorem is named _partial): a
-    rebuild group embedded in a longer file is covered by the tie (stages exh, rand) only. *)
+    MISSING (hence the _partial names): (i) the file-level completeness theorems 5/6 assume that the pre-pass
+    does not fire; what a confirmed group is turned into is theorem 10, but the composition "group inside a
+    longer file => exists/does not exist afterwards" is covered by the tie (stages exh, rand) only;
+    (ii) the temporary-object half of soundness is proved on the analysed change list for tables (11b); its
+    column analogue and the bridge from statements to that list are covered by the tie only. *)
 From Coq Require Import List NArith Bool Arith.
-From Atlas Require Import Base.Bytes Lint.LintModel Lint.LintSpec Lint.LintProofs Lint.LintFileProofs Lint.LintRefute.
+From Atlas Require Import Base.Bytes Lint.LintModel Lint.LintSpec Lint.LintProofs Lint.LintFileProofs Lint.LintSoundProofs Lint.LintRefute.
 Import ListNotations.
 
 (** 1. destructive.Analyze, exactly: DS102 at [p] naming [n] iff a statement at [p] carries DropTable n
@@ -151,3 +157,90 @@ Theorem C18_sound_refuted :
     exists p n, In (mkDiag DS102 p [n]) (analyze_file (changes_of [] stmts rs)).
 Proof. exact (ex_intro _ w_recreate recreate_flagged). Qed.
 Print Assumptions C18_sound_refuted.
+
+(** 10. The rebuild idiom.  Exact shape of what modifyUsingTemp accepts, and what a confirmed group becomes. *)
+Theorem C18_rebuild_group_shape :
+  forall c0 c2 c3 prevT currT,
+  modifyUsingTemp c0 c2 c3 = Some (prevT, currT) ->
+  exists addT, sc_changes c0 = [AddTableC addT] /\ has_prefix (t_name addT) new_prefix = true /\
+               sc_changes c2 = [DropTableC prevT] /\ t_name prevT = trim_prefix (t_name addT) new_prefix /\
+               currT = set_name addT (t_name prevT) /\
+               ((exists f t, sc_changes c3 = [RenameTableC f t] /\ t_name f = t_name addT /\ t_name t = t_name prevT) \/
+                (exists X Y, sc_changes c3 = [DropTableC X; AddTableC Y] /\ t_name X = t_name addT /\
+                             has_prefix (t_name Y) (t_name prevT) = true)).
+Proof. exact modifyUsingTemp_some. Qed.
+Print Assumptions C18_rebuild_group_shape.
+
+Theorem C18_rebuild_group_partial :
+  forall c0 c1 c2 c3 rest prevT currT,
+  modifyUsingTemp c0 c2 c3 = Some (prevT, currT) ->
+  let cl := c0 :: c1 :: c2 :: c3 :: rest in
+  rewriteTemp cl = mkSC (sc_pos c0) [ModifyTableC currT (tableDiff prevT currT)] :: rewriteTemp rest /\
+  forall d, In d (t_cols prevT) -> find_col (t_cols currT) (c_name d) = None -> c_virtual d = false ->
+            column_state (rewriteTemp cl) (t_name currT) (c_name d) <> SpanTemporary ->
+            exists ns, In (mkDiag DS103 (sc_pos c0) ns) (analyze_file cl) /\ In (c_name d) ns.
+Proof. exact rebuild_group. Qed.
+Print Assumptions C18_rebuild_group_partial.
+
+(** 11. Soundness.  (a) Files that only add objects: no statement removes a table name or a column name. *)
+Theorem C18_sound_additive :
+  forall (r0 : realm) (stmts : list pstmt) (rs : list realm),
+  wf_realm r0 -> run r0 stmts rs ->
+  (forall j p b a n, step_at r0 stmts rs j p b a -> has_table b n -> has_table a n) ->
+  (forall j p b a t c, step_at r0 stmts rs j p b a -> has_col b t c -> has_col a t c) ->
+  analyze_file (changes_of r0 stmts rs) = [].
+Proof. exact sound_additive. Qed.
+Print Assumptions C18_sound_additive.
+
+(** (b) A table created once in the analysed list, and not dropped before that, is never reported --
+    however often it is dropped afterwards (the temporary table of the property text). *)
+Theorem C18_sound_temp_table_partial :
+  forall (cl : list schange) (n : name) l1 T l2,
+  all_changes cl = l1 ++ AddTableC T :: l2 -> t_name T = n ->
+  (forall T', In (AddTableC T') l1 -> t_name T' <> n) ->
+  (forall T', In (AddTableC T') l2 -> t_name T' <> n) ->
+  (forall T', In (DropTableC T') l1 -> t_name T' <> n) ->
+  forall p ns, In (mkDiag DS102 p ns) (Analyze cl) -> ns <> [n].
+Proof. exact sound_temp_table. Qed.
+Print Assumptions C18_sound_temp_table_partial.
+
+(** ** Non-vacuity examples (vm_compute on concrete files; names: t = "t", vic, tmp, new_t) *)
+Definition ex_states (stmts : list pstmt) := states_of w_r0 stmts.
+
+(* theorems 1, 3, 5: DROP TABLE vic at byte 7 *)
+Example ex_drop_table :
+  analyze_file (changes_of w_r0 [(7%N, DropTable n_victim)] (ex_states [(7%N, DropTable n_victim)]))
+  = [mkDiag DS102 7 [n_victim]].
+Proof. vm_compute. reflexivity. Qed.
+
+(* theorems 2, 6: ALTER TABLE t DROP COLUMN b at byte 3 *)
+Example ex_drop_column :
+  analyze_file (changes_of w_r0 [(3%N, DropColumn n_t (c_name c_b))] (ex_states [(3%N, DropColumn n_t (c_name c_b))]))
+  = [mkDiag DS103 3 [c_name c_b]].
+Proof. vm_compute. reflexivity. Qed.
+
+(* theorems 4, 10: the whole pipeline on a directory: file 1 creates t(id,a,b); file 2 rebuilds t without b *)
+Example ex_lint_rebuild :
+  lint [mkFile 1 false [(0%N, CreateTable n_t [c_id; c_a; c_b])];
+        mkFile 2 false [(5%N, CreateTable n_new_t [c_id; c_a]); (50%N, InsertSelect n_new_t n_t);
+                        (90%N, DropTable n_t); (105%N, RenameTable n_new_t n_t)]] 1
+  = LintReport [(2%N, [mkDiag DS103 5 [c_name c_b]])] true.
+Proof. vm_compute. reflexivity. Qed.
+
+(* theorem 7, 11a: additive file *)
+Example ex_additive :
+  let f := [(0%N, AddColumn n_t (mkCol [99]%N false 2)); (30%N, CreateTable n_tmp [c_id])] in
+  analyze_file (changes_of w_r0 f (ex_states f)) = [] /\ rewriteTemp (changes_of w_r0 f (ex_states f)) = changes_of w_r0 f (ex_states f).
+Proof. vm_compute. split; reflexivity. Qed.
+
+(* theorem 11b: temporary table, also named new_t (the defect fixed by 3711e87) *)
+Example ex_temp_table :
+  let f := [(0%N, CreateTable n_new_t [c_id]); (20%N, AddColumn n_t (mkCol [99]%N false 2));
+            (40%N, Other true); (60%N, DropTable n_new_t)] in
+  analyze_file (changes_of w_r0 f (ex_states f)) = [].
+Proof. vm_compute. reflexivity. Qed.
+
+(* theorem 8 (nextStmts = run): *)
+Example ex_next_is_run :
+  nextStmts w_r0 w_readd = inr (changes_of w_r0 w_readd (states_of w_r0 w_readd), last (states_of w_r0 w_readd) w_r0).
+Proof. vm_compute. reflexivity. Qed.
